@@ -73,6 +73,18 @@ CHECKS = {
             "library buffer when it returned NULL). Exhaustive subsets x {buf, null, mix} x both APIs and random histories.",
             "For set_available_symbols a source symbol that the other submitted symbols already release may be either kept or decoded (the property does not say).",
             "TLC trace validation (ApiTrace)", "5/C11"),
+    "C17": (MC, "SparseMatrix.tla (set of (row,col) pairs plus the block/free-list allocator, BlockSize 2 in the model) is model-checked over all "
+            "operation sequences to a bounded depth on small matrices (invariants: find = membership, sorted traversals, no dangling free-list "
+            "entry, free releases every block); SparseTrace.tla matches every recorded operation of the real module (allocate, insert, find, "
+            "delete, clear, copy, copyrows, copycols, copy_filled_matrix, sparse/dense conversions, free) with the spec action of the same name "
+            "and compares the full projection (both traversals and every find answer); ASan faults and the allocation ledger are trace records.",
+            "In-range arguments only; _opt copies only onto empty destinations; trace validation with the real BlockSize 1024.",
+            "TLC model checking (SparseMatrix) + TLC trace validation (SparseTrace)", "5/C17"),
+    "C18": (MC, "DenseMatrix.tla (bit matrix with 32-bit word packing) model-checked on small matrices; DenseSolve.cfg checks the solver lemmas on "
+            "all 70 510 systems with q<=p<=4; DenseTrace.tla validates every recorded element operation, weight/popcount helper and solver "
+            "call (symbolic right-hand sides as coefficient vectors: status = full column rank, returned variables = unique solution) of the real code.",
+            "row_weight_ignore_first only for multiples of 32; copycols only onto destinations without extra non-empty rows.",
+            "TLC model checking (DenseMatrix/DenseSolve) + TLC trace validation (DenseTrace)", "5/C18"),
     "C19": (MC, "PrngTrace.tla validates against ParkMiller.tla (Schrage step, exact floor scaling by bit-serial arithmetic): the first 10,002 "
             "states step by step (10,000th = 1043618065), a walk of the real generator with checkpoints every window checked as "
             "multiplication by 16807^window mod p (thorough: the full cycle of 2^31-2 steps, state 1 recurs exactly there), (state, maxv, "
